@@ -360,7 +360,11 @@ func (e *engine) scenario(kind string, n int) {
 			}
 		}()
 	}
+	var lastAuthentic *signaling.SessionMsg
 	inject := func(how string) {
+		if how == "altered-copy" && lastAuthentic == nil {
+			how = "tampered"
+		}
 		nextInj++
 		q := nextInj
 		payload := e.rng.Bytes(6)
@@ -370,6 +374,12 @@ func (e *engine) scenario(kind string, n int) {
 		case "authentic":
 			m = e.mkMsg(e.kB, q, payload)
 			in.authentic, in.v, in.g = true, 1, 1
+			lastAuthentic = m
+		case "altered-copy": // signature and sender of the last authentic message, other payload
+			m = lastAuthentic.CloneVT()
+			m.Seqno = q
+			m.SignedMsg.Data = payload
+			in.v, in.g = 0, 1
 		case "authentic-for-other-peer":
 			m = e.mkMsg(e.kB, q, payload)
 			in.authentic, in.v, in.g = true, 1, 1
@@ -494,6 +504,23 @@ func (e *engine) scenario(kind string, n int) {
 			// drop the probe at the relay so that the next round starts clean
 		}
 		act("rounds of: Send(m) parked before its select; relay acks m; caller cancelled; then a probe Send that the relay never acks")
+	case "altered-retransmission":
+		// an authentic message is delivered; the relay then presents the same signature and
+		// sender again with another payload (looks like the retransmission after a re-open)
+		w.auto = ""
+		open()
+		for i := 0; i < n; i++ {
+			inject("authentic")
+			startRecv(300 * time.Millisecond)
+			w.quiesce(300 * time.Microsecond)
+			if i%2 == 1 {
+				open()
+			}
+			inject("altered-copy")
+			startRecv(300 * time.Millisecond)
+			w.quiesce(300 * time.Microsecond)
+		}
+		act("rounds of: deliver authentic M; [re-open]; deliver M's signature and sender with another payload")
 	case "replay":
 		// Known finding (format level): a message B signed for delivery to ANOTHER peer (or in an
 		// earlier session) carries no destination/session, so the relay can replay it to A.
@@ -519,9 +546,17 @@ func (e *engine) scenario(kind string, n int) {
 			case 3:
 				inject("self")
 				act("inject self-signed")
-			case 4, 5:
+			case 4:
 				inject("authentic")
 				act("inject authentic")
+			case 5:
+				if e.rng.Intn(2) == 0 {
+					inject("authentic")
+					act("inject authentic")
+				} else {
+					inject("altered-copy")
+					act("inject altered copy of the last authentic message")
+				}
 			case 6:
 				k := uint64(1 + e.rng.Intn(4))
 				w.respond(w.cur(), &signaling.SessionResponse{Body: &signaling.SessionResponse_AckMsg{AckMsg: k}})
@@ -655,11 +690,12 @@ func (e *engine) scenario(kind string, n int) {
 }
 
 func (e *engine) run() {
-	e.rep.Rule = "the real signaling client against a scripted relay: honest (open, ack, deliver), re-open while a send is in flight (F11 sentinel), ack racing the caller's cancellation followed by a never-acknowledged probe Send, malicious (third-party / tampered / claimed-sender / self-signed messages, unsolicited acks and clears, re-opens, closes, stream failures) with concurrent Send (incl. short deadlines = cancel) and Recv calls; every tracker critical section replayed on the Lean LTS; distinct = distinct schedule"
-	e.rep.Require("trace.honest", "trace.reopen-in-flight", "trace.malicious", "trace.cancel-after-ack")
+	e.rep.Rule = "the real signaling client against a scripted relay: honest (open, ack, deliver), re-open while a send is in flight (F11 sentinel), ack racing the caller's cancellation followed by a never-acknowledged probe Send, an authentic message followed by its signature re-presented with another payload, malicious (third-party / tampered / altered-copy / claimed-sender / self-signed messages, unsolicited acks and clears, re-opens, closes, stream failures) with concurrent Send (incl. short deadlines = cancel) and Recv calls; every tracker critical section replayed on the Lean LTS; distinct = distinct schedule"
+	e.rep.Require("trace.honest", "trace.reopen-in-flight", "trace.malicious", "trace.cancel-after-ack", "trace.altered-retransmission")
 	e.rep.Extra["events"], e.rep.Extra["sends_ok"], e.rep.Extra["delivered"] = 0, 0, 0
 	e.scenario("reopen-in-flight", 1)
 	e.scenario("cancel-after-ack", 4)
+	e.scenario("altered-retransmission", 3)
 	if e.a.Prop == "C19" {
 		e.scenario("replay", 1)
 	}
